@@ -38,7 +38,7 @@ SPEC = {
     "budget": {"quick": 600, "thorough": 1500},
     "technique": "Lean 4 theorems over a DB buffer machine (conservation invariant for every write sequence, thresholds, table set and unbindable-row predicate), total encoder tables, schema inference and multiplexing + pins regenerated from the AST (thresholds, modulo tests, encoder dict per class resolved through the hierarchy, flatten, close handler, statement text of the mirrored methods) + differential runs (cleanup, DB op traces, schema, end-to-end decode of every artefact)",
     "level_text": "Machine-checked proof that the buffer/flush/commit bookkeeping of the database stream commits exactly the written rows of every table of the schema, in order, for every write sequence, every pair of thresholds and every initial counter; that a failing close loses exactly the buffered rows; that every stream class has an applicable encoder and an accepting sink for every value of the universe; that the inferred schema covers every key of every row; that multiplexing is pointwise writing. The model is tied to the source by bridging lemmas over pins regenerated on every run and by differential runs against the real classes and the public entry point.",
-    "level_note": "Trusted: Lean kernel; py2lean; the harness and its decoders; csv/json/sqlite3/SQLAlchemy and the Python renderings str()/isoformat()/repr() (carried as strings in the model). Control flow of the mirrored methods is pinned as text and tied by correspondence. Floats are compared only on short dyadic values. D15 (close errors swallowed) and D16 (CSV header lacks _sf_update_key) are findings: the full statements are refuted by witnesses and proved under explicit hypotheses.",
+    "level_note": "Trusted: Lean kernel; py2lean; the harness and its decoders; csv/json/sqlite3/SQLAlchemy and the Python renderings str()/isoformat()/repr() (carried as strings in the model). Control flow of the mirrored methods is pinned as text and tied by correspondence. Floats are compared only on short dyadic values. D15 (close errors swallowed) is a finding: the full statement is refuted by a witness and proved under explicit hypotheses. D16 (CSV header lacked _sf_update_key) was repaired by bc0f717: csv_header_covers_rows is proved at full strength and its input runs as a regression case.",
     "assumptions": [
         "csv.DictWriter/csv.reader, json.dumps/json.loads and sqlite3/SQLAlchemy round-trip text, integers within 64 bits and NULL exactly",
         "a flush is one transaction: a row sqlite cannot bind fails the whole flush (observed; modelled as all-or-nothing)",
@@ -1123,8 +1123,8 @@ def uses_sqlite(cfg):
 def gen_e2e_case(rng, total):
     cfg = gen_cfg(rng)
     allow = list(FIELD_KINDS)
-    # update keys: every format but the CSV folder (D16, exercised by its own fixed cases)
-    spec = gen_spec(rng, total, allow, update_keys=(not cfg.get("csv")) and rng.random() < 0.3)
+    # update keys in every format, the CSV folder included (D16 was repaired by bc0f717)
+    spec = gen_spec(rng, total, allow, update_keys=rng.random() < 0.3)
     if uses_sqlite(cfg) and rng.random() < 0.08:
         # an integer sqlite cannot bind, somewhere: before a flush point the error is reported,
         # in the final batch it is the D15 shape
@@ -1157,8 +1157,9 @@ FIXED_E2E = [
     # the same value is fine in the formats without an integer limit
     {"kind": "e2e", "recipe": D15_RECIPE, "cfg": {"files": ["json", "txt"]}},
     {"kind": "e2e", "recipe": D15_RECIPE, "cfg": {"csv": True}},
-    # D16
+    # D16 (repaired by bc0f717): regression shapes
     {"kind": "e2e", "recipe": D16_RECIPE, "cfg": {"csv": True}},
+    {"kind": "e2e", "recipe": D16_RECIPE, "cfg": {"db": 1, "csv": True}},
     {"kind": "e2e", "recipe": D16_RECIPE, "cfg": {"db": 1, "files": ["json", "sql", "txt"]}},
     # no rows at all
     {"kind": "e2e", "recipe": "- snowfakery_version: 3\n- object: A\n  count: 0\n  fields:\n    a: 1\n", "cfg": {"db": 1, "files": ["json", "sql", "txt"]}},
